@@ -107,10 +107,10 @@ Theorem raft_untrack_handoff p nd :
 Proof. exact (untrack_handoff_l p nd). Qed.
 Print Assumptions raft_untrack_handoff.
 
-(* OfflineState is the replay of the prefix the newest snapshot is labelled with *)
+(* OfflineState is the replay of the prefix the newest snapshot of the store (the highest label) is labelled with *)
 Theorem raft_offline_is_snapshot_partial k es n nd :
   clean es -> run_ok ev_atomic (init k) es = true -> nth_error (nodes (final k es)) n = Some nd ->
-  offline nd = match rev (snaps nd) with [] => [] | s :: _ => replay (firstn (fst s) (log (final k es))) end.
+  offline nd = match newest (snaps nd) with None => [] | Some s => replay (firstn (fst s) (log (final k es))) end.
 Proof. exact (offline_l k es n nd). Qed.
 Print Assumptions raft_offline_is_snapshot_partial.
 
@@ -298,14 +298,26 @@ Example raft_monitor_offline_late_snapshot_tagged :
   model_eqb 1 monitor_demo_cmds es = true /\ trace_guard 1 monitor_demo_cmds es = false /\
   spec_okb 1 monitor_demo_cmds es = false /\ tag_of monitor_demo_cmds es = 3.
 Proof. repeat split; vm_compute; reflexivity. Qed.
-(* (b) a snapshot INSTALLED on a replica between its FSM.Snapshot and the Persist of it makes a late snapshot; restoring it and
-       replaying agrees with the model and fails the monitor *)
+(* (b) a snapshot INSTALLED on a replica between its FSM.Snapshot and the Persist of it makes a late snapshot (the second of the
+       replica's store: the installed one is the first); restoring it and replaying agrees with the model and fails the monitor.
+       (The file store would offer the installed snapshot, labelled 4, as the newest: the model lets a replica restore any.) *)
 Example raft_monitor_install_between_snapshot_and_persist_tagged :
   let cmds := [LPin (wpin 0 1); LPin (wpin 1 1); LUnpin (wpin 1 1); LPin (wpin 2 1)] in
   let es := [OCommit 0; OCommit 1; OCommit 2; OCommit 3; OApply 0 0; OApply 0 1; OApply 0 2; OApply 0 3; OSnapReq 0 true; OPersist 0;
-             OApply 1 0; OSnapReq 1 true; ORestore 1 0 0 4; OPersist 1; ORestart 1; ORestore 1 1 0 1; OApply 1 1;
+             OApply 1 0; OSnapReq 1 true; ORestore 1 0 0 4; OPersist 1; ORestart 1; ORestore 1 1 1 1; OApply 1 1;
              OObs 1 (Some [wpin 0 1; wpin 1 1; wpin 2 1])] in
   model_eqb 2 cmds es = true /\ trace_guard 2 cmds es = false /\ spec_okb 2 cmds es = false /\ tag_of cmds es = 3.
+Proof. repeat split; vm_compute; reflexivity. Qed.
+(* the store of a replica holds what was installed on it: OfflineState of a follower that never took a snapshot itself is the
+   replay of the prefix the installed snapshot is labelled with; and of a replica that persisted label 1 and was then sent label 2,
+   the newest of its store, label 2 *)
+Example raft_offline_of_installed_snapshot :
+  let es1 := [OCommit 0; OApply 0 0; OSnapReq 0 true; OPersist 0; ORestore 1 0 0 1; OOffline 1 [wpin 0 1]] in
+  let es2 := [OCommit 0; OApply 0 0; OApply 1 0; OSnapReq 1 true; OPersist 1; OCommit 1; OApply 0 1; OSnapReq 0 true; OPersist 0;
+              ORestore 1 0 0 2; OOffline 1 [wpin 0 1; wpin 1 1]; OOffline 0 [wpin 0 1; wpin 1 1]] in
+  (model_eqb 2 monitor_demo_cmds es1 = true /\ spec_okb 2 monitor_demo_cmds es1 = true /\
+   spec_okb 2 monitor_demo_cmds [OCommit 0; OApply 0 0; OSnapReq 0 true; OPersist 0; ORestore 1 0 0 1; OOffline 1 []] = false) /\
+  (model_eqb 2 monitor_demo_cmds es2 = true /\ spec_okb 2 monitor_demo_cmds es2 = true).
 Proof. repeat split; vm_compute; reflexivity. Qed.
 (* the recogniser looks at the shape only: a late snapshot that nobody restores or reads is not flagged, and the trace passes *)
 Example raft_late_snapshot_unused_passes :
@@ -319,14 +331,15 @@ Proof. repeat split; vm_compute; reflexivity. Qed.
    around CommitOp. In the model: `shutdown n` = the final snapshot requested and written with nothing committed in between.
    For every schedule with atomic snapshots followed by a shutdown of n: an operation that was acknowledged at n - in the log at a
    position n has applied (raft_ack_visible_on_committer) - is what OfflineState of n's folder holds for its cid, and what n holds
-   after it has started again from that folder (before it replays anything), unless an entry n applied later writes the cid *)
+   after it has started again from that folder (before it replays anything), unless a later entry below the label L of the newest
+   snapshot of the folder writes the cid (L = n's position, or above it when the store already held a snapshot with a higher label) *)
 Theorem raft_shutdown_loses_nothing_acknowledged k es n nd j op x :
   clean es -> run_ok ev_atomic (init k) es = true -> nth_error (nodes (final k es)) n = Some nd ->
-  nth_error (log (final k es)) j = Some op -> (j < applied nd)%nat ->
-  writes x op = true -> existsb (writes x) (slice (S j) (applied nd) (log (final k es))) = false ->
+  nth_error (log (final k es)) j = Some op -> (j < applied nd)%nat -> writes x op = true ->
   let cl' := run (final k es) (shutdown n) in
-  sget x (offline (getn n cl')) = effect op /\
-  sget x (st (getn n (run cl' (from_disk n (length (snaps nd)))))) = effect op.
+  exists L kk, (applied nd <= L)%nat /\
+    (existsb (writes x) (slice (S j) L (log (final k es))) = false ->
+     sget x (offline (getn n cl')) = effect op /\ sget x (st (getn n (run cl' (from_disk n kk)))) = effect op).
 Proof. exact (shutdown_loses_nothing_l k es n nd j op x). Qed.
 Print Assumptions raft_shutdown_loses_nothing_acknowledged.
 
